@@ -338,6 +338,39 @@ pub fn build_cases(ctx: &Ctx, rng: &mut Rng) -> Vec<Case> {
             });
         }
     }
+    if let Some((nlev, hs, ws)) = crate::common::build_limits() {
+        // a build with reduced limits (stage `constrained`): only the lists it supports, plus
+        // the lists that use every level's limit to the full (largest height that is still
+        // affordable, smallest allowed W) and a few random ones inside the limits
+        cases.retain(|c| crate::common::in_build_limits(&c.levels));
+        for alg in model::ALL_ALGS {
+            for len in 1..=nlev.min(8) {
+                let cap = |h: u32| if h >= 10 && !alg.is_shake() { 10 } else if h >= 5 { 5 } else { 2 };
+                let mut full: Vec<Level> = (0..len).map(|i| Level { h: cap(hs[i]), w: ws[i] }).collect();
+                // keep signing affordable: at most one H10 level, and not with W8 on it
+                let mut tens = 0;
+                for l in full.iter_mut() {
+                    if l.h == 10 {
+                        tens += 1;
+                        if tens > 1 || l.w == 8 {
+                            l.h = 5;
+                        }
+                    }
+                }
+                let pts = boundary_counters(&full);
+                push(alg, full, Plan::Points(pts), rng, &mut cases);
+                let rnd: Vec<Level> = (0..len)
+                    .map(|i| {
+                        let hh: Vec<u32> = [2u32, 5].iter().copied().filter(|h| *h <= hs[i]).collect();
+                        let ww: Vec<u32> = WS.iter().copied().filter(|w| *w >= ws[i]).collect();
+                        Level { h: *rng.pick(&hh), w: *rng.pick(&ww) }
+                    })
+                    .collect();
+                let pts = boundary_counters(&rnd);
+                push(alg, rnd, Plan::Points(pts), rng, &mut cases);
+            }
+        }
+    }
     if !ctx.quick() {
         // roll-over windows of keys with an H10 level
         for alg in model::ALL_ALGS {
@@ -388,14 +421,15 @@ pub fn run(ctx: &Ctx) -> Report {
                 distinct_nontrivial = distinct (hash, parameter list, counter, message-length class) with >1 level or counter>0 or (n,W) outside SHA-256/32 W1/W2"
         .into();
     // every upper level must have rolled over at least once per hash
+    let depth = crate::common::build_limits().map(|(n, _, _)| n.saturating_sub(1).min(3)).unwrap_or(3);
     for alg in model::ALL_ALGS {
-        for l in 0..3 {
+        for l in 0..depth {
             if rep.counter(&format!("rollovers_crossed_level{}_{}", l, alg.name())) == 0 {
                 rep.inconclusive(&format!("no roll-over of level {l} observed for {}", alg.name()));
             }
         }
     }
-    if rep.counter("released_signatures") < 1000 {
+    if rep.counter("released_signatures") < if crate::common::build_limits().is_some() { 50 } else { 1000 } {
         rep.inconclusive("fewer than 1000 released signatures observed");
     }
     shared::add_assumptions(&mut rep);
